@@ -199,7 +199,7 @@ func initFloat32() {
 	)
 	Def(
 		c,
-		"to_float64",
+		"to_float32",
 		func(_ *Thread, args []value.Value) (value.Value, value.Value) {
 			return args[0], value.Undefined
 		},
